@@ -734,6 +734,18 @@ func (sc *Scope) resolveModifies(item string) []modLoc {
 		c.compSort["$closed"] = "(Array Ref Bool)"
 		return []modLoc{{comp: "$closed", ref: v.T}}
 	}
+	if strings.HasPrefix(item, "fields(") && strings.HasSuffix(item, ")") {
+		// every component holding part of a value of the named struct type
+		t := sc.resolveType(strings.TrimSuffix(strings.TrimPrefix(strings.TrimSpace(item[7:len(item)-1]), "type("), ")"))
+		comps := map[string]bool{}
+		sc.e.typeComps(t, comps)
+		var out []modLoc
+		for n := range comps {
+			out = append(out, modLoc{comp: n})
+		}
+		sort.Slice(out, func(i, j int) bool { return out[i].comp < out[j].comp })
+		return out
+	}
 	if strings.HasPrefix(item, "comp(") && strings.HasSuffix(item, ")") {
 		return []modLoc{{comp: item[5 : len(item)-1]}}
 	}
